@@ -24,34 +24,36 @@ META = {
         "sections": ["Arith.Max", "Arith.Min", "Arith.rangeCompare"],
         "rule": "shape family: every between-site/point/(partial) range/ambiguous span with coordinates in [0,8], their complements, joins and orders (and complements thereof) of 2 parts (thorough: 3 parts) from a 15-part pool incl. abutting, overlapping, single-base, zero-length and complemented parts, nesting 2; x every insertion index 0..8 x guest lengths {0,1,3}; Shift and Expand at location level, Insert and Embed at sequence level (host table = source + shape + another feature, guest with 0/1 feature), plus random tables of 0..5 features with nesting <= 2. Non-trivial = guest length > 0 (location level) / every sequence-level case; distinct = distinct case lines.",
         "assumptions": ["Go int as unbounded Z", "total theorems for locations without join(...) in the input (the joins produced by splitting are covered); _joins theorems cover every location up to adjacent duplicates under k1_after (no image point on an image range end): partial correctness; K1 shapes by correspondence + oracle",
-                        "the partial-marker clause is checked on locations whose markers sit on outer ends only (INSDC well-formed)"],
+                        "record-level theorems C02_insert_record / C02_embed_record: success, residues and the output table as a permutation of the relocated host and guest features (each once, key and qualifiers kept), under per-feature hypotheses ins_host_ok / emb_host_ok / guest_ok (k1_after + the operation returns a location)",
+                        "the partial-marker clause is checked on locations whose markers sit on outer ends only (INSDC well-formed): oracle + correspondence, no theorem"],
     },
     "C03": {
         "sections": ["Arith.Max", "Arith.rangeWithin", "Arith.rangeOverlap"],
         "rule": "shape family as C02 on a length-9 sequence x every (i,n) with n<=4 or n reaching the end; Delete and Erase on tables (source + shape) for all i and n in {0,1,3,L-i}; Slice over windows s,e in [-9,9] incl. wrap-around and negative indices. Non-trivial = n>0 / every slice; distinct case lines.",
-        "assumptions": ["Go int as unbounded Z", "total theorem for inputs without join(...); C03_expand_neg_den_joins covers every location up to adjacent duplicates under k1_after; slice = two deletions is decided by correspondence + oracle; ambiguous spans are now compared by residues",
+        "assumptions": ["Go int as unbounded Z", "total theorem for inputs without join(...); C03_expand_neg_den_joins covers every location up to adjacent duplicates under k1_after; record-level theorems C03_delete_record, C03_erase_record and (join-free tables, non-wrapping window) C03_slice_record_partial: success, residues, which features stay, and what each denotes; slice through joins and the wrap-around window are decided by correspondence + oracle; ambiguous spans are compared by residues",
                         "GenBank REFERENCE clipping (metadata): refs_slice model + four theorems + oracle over windows at every range edge"],
     },
     "C04": {
         "sections": ["Arith.Max"],
         "rule": "L in {1,5,8} (thorough 1..8), every shape of the family (ambiguous spans whenever they do not cross the new origin), every n in [-3L,3L]; additivity with b in {1,-2,L}; Normalize alone on the full family for L in {3,8}. Non-trivial = n not a multiple of L.",
-        "assumptions": ["Go int as unbounded Z", "PARTIAL: the feature theorems cover join-free locations (order/complement nesting of any depth), ranges shorter than L and ambiguous spans that do not cross the new origin; join(...) in the input and additivity on whole tables are decided by correspondence + oracle"],
+        "assumptions": ["Go int as unbounded Z", "PARTIAL: the feature theorems cover join-free locations (order/complement nesting of any depth), ranges shorter than L and ambiguous spans that do not cross the new origin; join(...) in the input: C04_location_joins_partial / C04_features_joins_partial under the computable side condition rot_okb (K1-free leaf images after Expand and after Normalize), up to adjacent duplicates; K1 shapes and additivity on whole tables are decided by correspondence + oracle"],
     },
     "C05": {
         "sections": ["Tables.complement"],
         "rule": "shape family with triples plus joins/orders of 4 and 5 parts, L=8: Reverse, Complement, Region, den at location level; Reverse, Complement, Locate and reverse-complement extraction at sequence level. Distinct case lines, all non-trivial.",
         "assumptions": ["total theorem for inputs without join(...) (order(...) of every arity); for every location incl. joins a partial-correctness theorem up to adjacent duplicates under k1_after (complement of K1)",
+                        "record-level theorem C05_reverse_record (table a permutation of the relocated features, whatever their key); C05_revcomp_extracts_the_same: what a feature reads from the reverse-complemented record equals what it read from the original, for residues fixed by complementing twice (every IUPAC letter but u/U)",
                         "extraction equality is claimed for locations that name no base twice (Join drops duplicates, C06)"],
     },
     "C10": {
         "sections": ["Arith.Max"],
         "rule": "shape family on a length-8 host x every i x guest lengths {1,2,3}: insert;delete and embed;delete; cut sets {},{3},{0},{8},{2,5},{2,2},{1,4,6},{0,4,8},{1,3,5,7} through slice*;concat. All non-trivial; distinct case lines.",
-        "assumptions": ["exact restoration is proved for contiguous locations; multi-part locations by correspondence + oracle at denotation level"],
+        "assumptions": ["exact restoration is proved for contiguous locations; multi-part locations: den-level undo theorems; concat undoes split: C10_split_concat_bytes (any ascending cut list, empty pieces allowed), C10_piece_denotes_its_window_partial (join-free locations) and C10_pieces_partition (any denotation); exact coordinates of re-joined multi-part locations by correspondence + oracle"],
     },
     "C08": {
         "sections": ["Arith.Abs", "Arith.Max", "Arith.Compare"],
         "rule": "regions of 1..3 (thorough 4) segments with lengths 0..3 and gaps 0..2 plus two 5-segment regions, each on both strands (and bare segments), x all five modifier forms with offsets in [-len-3,len+3] (two-offset forms on a step-2 grid); Modifier.Apply on all (h,t) in [0,6]^2 incl. the mirror law; modifier print/re-parse; EVERY string of <=5 (thorough 6) symbols over {^,$,..,.,+,-,0,1,7} through AsModifier and the printed form of every modifier over an 18-value offset grid up to the edges of int; 8 locator specifiers x 7 modifiers on a 5-feature table. Oracle: inside bounds the resized region denotes spliced[lo:hi] (positions and residues through Locate); outside bounds the first/last segment is extended outward.",
-        "assumptions": ["theorem C08_resize_slice covers every nested region and modifier with bounds inside the region (rwf: non-empty Regions values, coordinates within +-2^62; sums of lengths as unbounded Z); theorem C08_modifier_print_parse covers Modifier.String then AsModifier for int64 offsets; AsLocator is modelled and tied (locate_string), its composition and precedence are theorems; offsets outside the region are decided by exhaustive correspondence + oracle",
+        "assumptions": ["theorem C08_resize_slice covers every nested region and modifier with bounds inside the region (rwf: non-empty Regions values, coordinates within +-2^62; sums of lengths as unbounded Z); theorem C08_modifier_print_parse covers Modifier.String then AsModifier for int64 offsets; AsLocator is modelled and tied (locate_string), its composition and precedence are theorems; offsets outside the region: C08_resize_any_offsets (Resize succeeds for every modifier and denotes positions [lo,hi) of the region continued outward, eden) with C08_continuation_inside/before/after; the model computes in unbounded Z (the Go code agrees while no int overflows)",
                         "regexp selectors inside locators are exercised with literal keys/values only"],
     },
     "C09": {
@@ -111,7 +113,7 @@ META = {
     "C12": {
         "sections": ["Arith.rangeCompare"],
         "rule": "1500 (thorough 60000) random tables of 0..5 features over two keys (CDS, source) x two qualifier sets (so classes collide) with locations from the shape family plus abutting partial fragments on both strands: Repair, Repair again; restoration: every shape of the family that is well-marked and duplicate-free as the unique CDS of a 3-feature table, cut at 7 cut sets of 1..3 positions, pieces concatenated, repaired and compared with the original. Oracle: no panic, argument untouched, idempotent, unchanged when no same-class pair abuts (abutting written independently), per-class coverage preserved, merges bounded by abutting pairs, restoration. All cases non-trivial.",
-        "assumptions": ["PARTIAL: theorems cover the merge step and the index bookkeeping; idempotence, table-level unchanged and restoration are decided by correspondence + oracle",
+        "assumptions": ["theorems cover the merge step (residues kept), the index bookkeeping, and the whole table: C12_table_class_residues (per class the same stranded residues before and after, nothing moves between classes), C12_table_keeps_key_and_qualifiers, C12_table_unchanged_when_nothing_merges; PARTIAL: idempotence and restoration after several cuts / of multi-part features are decided by correspondence + oracle",
                         "classes are the printed strings key:%v(props) exactly as in the code; groups larger than 12 (unstable pdqsort) are outside the modelled domain",
                         "known finding K7: multi-part features are re-assembled only when they are ascending joins of ranges cut strictly inside a range"],
     },
